@@ -162,6 +162,17 @@ def _check_paths(chk, R1, R2, fm, label, q, fi, paths, dest, rhs_of, need_store)
                         used_copies.append(a)
                         mine += 1
                         store_nodes.add(e.node)
+        # the copy must not leave the function by another door: a returned copy is a second reference to the stored object
+        # (or, for compound forms, to the elements that `+=` spliced into the stored list) - it becomes the value of the
+        # statement, which the host receives and a program can keep by calling the builtin as an expression
+        ret = freeze(p.outcome[1]) if p.outcome[0] == 'return' else None
+        if ret is not None and is_deepcopy_of(ret, rhs):
+            if ret in used_copies:
+                problems2.append('returns the very copy it stored: the value of the statement is a second reference to the stored object')
+            elif any(om.mentions(freeze(e.value), ret) for e in stores):
+                problems2.append('returns the copy it combined into the stored value (`%s`): for lists the elements of that copy are now '
+                                 'elements of the stored list as well, so the value of the statement shares them'
+                                 % next(e.text() for e in stores if om.mentions(freeze(e.value), ret)))
         if need_store and mine == 0:
             problems1.append('a normally returning path stores nothing%s' % _pd(p))
         n_stores += mine
